@@ -22,6 +22,7 @@ package main
 // Output: <out>/FailNames.lean, namespace BexprGen.FailNames (or -ns).
 
 import (
+	"sort"
 	"flag"
 	"fmt"
 	"go/ast"
@@ -455,7 +456,7 @@ func (r *pieceReader) listJoin() {
 		"case", "1", ":", "return", l, "[", "0", "]",
 		"default", ":", "return", "strings", ".", "Join", "(", l, "[", ":", "len", "(", l, ")", "-", "1", "]", ",", sep, ")",
 		"+", "\x00", "+", last, "+", "\x00", "+", l, "[", "len", "(", l, ")", "-", "1", "]", "}"}
-	toks := f.sf.bodyToks(f.fd.Body)
+	toks := canonSwitchToks(f.sf, f.fd.Body)
 	if len(toks) != len(tmpl) {
 		bad("body of listJoin has an unexpected shape: " + f.sf.stmtsOneLine(f.fd.Body.List))
 		return
@@ -656,4 +657,53 @@ func runFailNames(args []string) int {
 	fmt.Printf("failnames: %d/%d matcher texts (grammar.go/grammar.peg), %d/%d conflicts, %d message pieces, %d unknown entries -> %s\n",
 		len(goWants), len(pegWants), len(goConf), len(pegConf), len(pr.pieces), len(unknowns), target)
 	return exit
+}
+
+// canonSwitchToks is bodyToks for a body that is one `switch` over mutually exclusive constant cases
+// (every clause lists distinct basic literals, at most one default): the clauses are emitted in the
+// order of their first case text, the default last — the textual order of such clauses cannot matter.
+// Any other body is returned as written.
+func canonSwitchToks(sf *srcFile, b *ast.BlockStmt) []string {
+	if b == nil || len(b.List) != 1 {
+		return sf.bodyToks(b)
+	}
+	sw, ok := b.List[0].(*ast.SwitchStmt)
+	if !ok || sw.Init != nil || sw.Tag == nil || sw.Body == nil {
+		return sf.bodyToks(b)
+	}
+	type clause struct {
+		key  string
+		toks []string
+	}
+	var cls []clause
+	seen := map[string]bool{}
+	for _, st := range sw.Body.List {
+		cc, ok := st.(*ast.CaseClause)
+		if !ok {
+			return sf.bodyToks(b)
+		}
+		key := "\xff default"
+		for _, e := range cc.List {
+			bl, ok := e.(*ast.BasicLit)
+			if !ok || seen[bl.Value] {
+				return sf.bodyToks(b)
+			}
+			seen[bl.Value] = true
+		}
+		if len(cc.List) > 0 {
+			key = sf.oneLine(cc.List[0])
+		} else if seen[key] {
+			return sf.bodyToks(b)
+		} else {
+			seen[key] = true
+		}
+		cls = append(cls, clause{key, sf.toks(cc)})
+	}
+	sort.SliceStable(cls, func(i, j int) bool { return cls[i].key < cls[j].key })
+	out := append([]string{"switch"}, sf.toks(sw.Tag)...)
+	out = append(out, "{")
+	for _, c := range cls {
+		out = append(out, c.toks...)
+	}
+	return append(out, "}")
 }
